@@ -8,13 +8,20 @@ import (
 
 type c31Stream struct {
 	stream.Stream
-	closed bool
+	closed   bool
+	closeErr error
 }
 
+// Close always takes effect (the stream is gone afterwards); it may additionally report an error, as
+// a stream on a reset link does.
 func (s *c31Stream) Close() error {
 	s.closed = true
-	return nil
+	return s.closeErr
 }
+
+type c31Err struct{}
+
+func (c31Err) Error() string { return "stream reset" }
 
 type c31MS struct {
 	link.MountedStream
@@ -34,6 +41,9 @@ func VerifC31AcceptClose() {
 	rt.SchedBound(p, true)
 	rt.KnownFinding("C31-accept-reads-err-unlocked", true)
 	strm := &c31Stream{}
+	if rt.Choose("closeReportsError", 2) == 1 {
+		strm.closeErr = c31Err{}
+	}
 	s := NewSolicitMountedStream(&c31MS{strm: strm}).(*solicitMountedStream)
 	var got [2]link.MountedStream
 	var dup [2]bool
@@ -57,5 +67,8 @@ func VerifC31AcceptClose() {
 	rt.Assert("an owned stream is not closed", !(owners > 0 && strm.closed))
 	rt.Assert("Close reports true exactly when it closed the stream", closedRet == strm.closed)
 	rt.Assert("somebody ends up responsible for the stream", owners == 1 || strm.closed)
+	// a late accept, after everything settled
+	late, ldup, lerr := s.AcceptMountedStream()
+	rt.Assert("a late accept never gets a stream that was closed or is already owned", late == nil && (ldup || lerr != nil))
 	rt.Reach("end")
 }
